@@ -25,6 +25,34 @@ claimed = {
 }
 na = {
 }
+L2_NOTE = ("Trusted: Coq 8.16.1 kernel; no axioms (Print Assumptions re-measured on every run); the node / edge classes and the "
+           "SimPy kernel are re-expressed as an executable Gallina factory model (coq/theories/Kernel, coq/theories/Factory) "
+           "which is tied to /repo by trace-exact differential correspondence on random factories (extracted OCaml, "
+           "ExtrOcamlBasic only); theorems proved for all inputs are named in the claim, everything else the claim calls "
+           "'compared' is exploration of the model-vs-code tie, not proof.")
+claimed.update({
+ "C03": ("sec 8", "verified conservation monitor (Coq) run on implementation and model traces + trace-exact factory correspondence; per-edge conservation theorems",
+  "PARTIAL. Theorems: C03_monitor_sound / C03_monitor_prefix_closed -- a movement trace accepted by the monitor keeps every generated item in exactly one place and satisfies generated = at sources + in edges + in nodes + packed + discarded + received after every prefix; C03_edge_step_conserves for every store operation. The extracted monitor runs on the trace of the real classes for every explored factory, and the model's trace equals the implementation's line by line. Not proved: acceptance for every configuration."),
+ "C08": ("sec 8", "Resource capacity invariant (Coq) + trace-exact factory correspondence with per-item timing oracle",
+  "PARTIAL. Theorems C08_slots_*: the worker-slot resource never has more users than its capacity under any sequence of requests, releases and kernel callbacks; C08_one_draw: one delay draw per get_delay call. Offer time = pull time + delay, one draw per item and held <= work_capacity are compared on every explored factory (Machine, Splitter, Combiner) through the trace-exact model; not proved for every configuration."),
+ "C09": ("sec 8", "can_put probe regenerated from source and proved exact (Coq); URGENT-before-NORMAL kernel lemma; trace-exact factory correspondence with blocking / non-blocking oracle",
+  "PARTIAL. Theorems C09_probe_is_exact (the regenerated Buffer.can_put / Fleet.can_put is true iff a reservation issued now is granted at once, in every reachable store state) and C09_urgent_first. 'Blocking never discards' and 'non-blocking pushes or drops at the ready instant' are compared on every explored factory; not yet proved for every configuration."),
+ "C10": ("sec 8", "store-level no-lost-wake-up and binding-stability theorems (Coq); trace-exact factory correspondence; end-of-run stranded-work oracle",
+  "PARTIAL. Theorems C10_no_pending_while_servable, C10_step_keeps_no_lost_wakeup, C10_other_bindings_untouched (store layer, every history). The node-level statements are compared through the trace-exact model and an end-of-run check (no granted reservation left unused, no item left available to a sink or a free FIRST_AVAILABLE machine)."),
+ "C15": ("sec 8", "round-robin generator regenerated from source and proved (Coq); model selector lemmas; trace-exact correspondence of recorded selections and routing",
+  "PARTIAL. Theorems C15_round_robin_kth / C15_round_robin_in_range (regenerated update expression: the k-th value is k mod n), C15_model_round_robin, C15_model_constant, C15_range_test. Recorded selection lists vs actual routing, one draw per item and rejection of out-of-range indices are compared on every explored factory."),
+ "C16": ("sec 8", "combiner reservation-count theorem (Coq); trace-exact correspondence of packing / unpacking",
+  "PARTIAL. Theorem C16_combiner_reserves_recipe: the model of Combiner.behaviour reserves exactly target_quantity[i] tokens on ingredient edge i (IndexError if the recipe is too short); C16_one_token_per_round. Pallet contents per in-edge, pallet origin and the splitter's emission order are compared on every explored pallet factory (K / P lines)."),
+ "C17": ("sec 8", "classification conditions regenerated from source; partition and sum theorems for all update sequences (Coq); trace-exact comparison of final state-time tables",
+  "Theorems C17_conditions_regenerated, C17_groupA_partition, C17_groupB_partition, C17_machine_groups_sum (each documented group adds up to the elapsed time, all totals non-negative, for every sequence of updates at non-decreasing times), C17_node_states_sum (Node.update_state). Exact arithmetic; the final tables of all nodes are compared with the model on every explored factory and checked to add up to T. 'Charged = actually spent' is compared, not proved. Known limitation recorded in known_findings.jsonl: Machine.update_final_state_time before the end of set-up raises."),
+ "C18": ("sec 8", "weighted-sum = integral theorem (Coq); trace-exact comparison of counters, weighted sums and cycle times with an independent recount",
+  "Theorem C18_weighted_sum_is_integral: after any sequence of level updates at non-decreasing integer times the accumulator equals the sum over all unit ticks of the true level; C18_model_level_update ties the model's edge update to that accumulator. Counters, cycle times and weighted sums of every edge and node are compared with the model and recounted independently from the movement trace on every explored factory."),
+ "C19": ("sec 8", "kernel-invariant lifting to every reachable world of every factory (Coq): time never goes back; reproducibility runs across interpreters and hash seeds",
+  "Theorem C19_time_monotone: for every configuration and every number of kernel steps the kernel invariant holds and the clock never goes back (proved through all process blocks of Source, Machine, Sink, Splitter, Combiner, Buffer, Fleet). Reproducibility: the model is a function of the configuration; the implementation is run twice in one interpreter and in fresh interpreters with different PYTHONHASHSEED / allocation history and all outputs must be identical and equal to the model's -- that part is tested, not proved (PARTIAL)."),
+ "C20": ("sec 8", "kernel invariant everywhere + rejection lemmas (Coq); crash-class correspondence on valid and invalid configuration streams; step-budget livelock detection",
+  "PARTIAL. Theorems C20_kernel_invariant_everywhere, C20_negative_delay_rejected, C20_bad_constant_index_rejected, C20_unknown_policy_rejected, C20_machine_bad_index_crashes_at_once. Unhandled exceptions are explicit outcomes of the model and must match the real classes (exception class) on every explored factory and on a stream of invalid configurations (bad index, unknown policy, negative delay, capacity <= 0, unknown buffer mode, non-blocking source with zero inter-arrival); zero-time livelock is detected by a step budget. Crash freedom / finiteness for every valid configuration is not proved."),
+})
+
 checks = []
 for pid, (ref, tech, text) in claimed.items():
     checks.append(dict(property_id=pid,
@@ -33,8 +61,8 @@ for pid, (ref, tech, text) in claimed.items():
         evidence_file="/verif/evidence/%s.json" % pid,
         replay_cmd_template="/venv/bin/python checks/check.py %s --replay {path}" % pid,
         engine="coq", level_claimed=dict(category="proof", text=text, design_ref="DESIGN.md " + ref),
-        level_note=L1_NOTE, technique=tech))
-default_na = "machinery under construction in this round (component / factory model layer not finished; see DESIGN.md section 10)"
+        level_note=(L2_NOTE if pid in ('C03','C08','C09','C10','C15','C16','C17','C18','C19','C20') else L1_NOTE), technique=tech))
+default_na = "not claimed yet: the conveyor-belt edges (and the timed fleet theorems for C14) are not modelled in this round -- see DESIGN.md"
 m = dict(version=1, setup_cmd="cd /verif && /venv/bin/python checks/setup.py",
          hooks=dict(guard="FACTORYSIMPY_VERIF", enable="no hooks: the harness wraps methods from outside and drives env.step() itself",
                     baseline_off_cmd="cd /repo && /venv/bin/python -m pytest -ra -q -p no:cacheprovider --timeout=900 --continue-on-collection-errors",
